@@ -17,6 +17,10 @@ macro_rules! events {
     ($($n:ident),*) => { $(#[derive(Event, Serialize, Deserialize, Clone)] pub struct $n(pub u8);)* };
 }
 events!(E0, E1, E2, E3, E4);
+/// registered after the generated sequence on both sides of the end-to-end part: a mapped client event that the client
+/// writes with an unmappable entity in the very frame in which it connects (seed C14r3)
+#[derive(Event, Serialize, Deserialize, Clone, bevy::ecs::entity::MapEntities)]
+pub struct MapEv(#[entities] pub Entity);
 
 #[derive(Clone, Copy, Debug, PartialEq, Eq, Hash, Serialize, Deserialize)]
 pub enum RegOp {
@@ -106,10 +110,17 @@ pub fn normalize(seq: &[RegOp]) -> Vec<RegOp> {
 }
 
 pub fn build(seq: &[RegOp], auth: AuthMethod) -> App {
+    build_with(seq, auth, false)
+}
+
+pub fn build_with(seq: &[RegOp], auth: AuthMethod, extra_mapped_event: bool) -> App {
     let mut app = App::new();
     app.add_plugins((MinimalPlugins, RepliconPlugins.set(RepliconSharedPlugin { auth_method: auth }).set(ServerPlugin { tick_policy: TickPolicy::EveryFrame, ..Default::default() })));
     for &op in &normalize(seq) {
         apply(&mut app, op);
+    }
+    if extra_mapped_event {
+        app.add_mapped_client_event::<MapEv>(Channel::Ordered);
     }
     app.finish();
     app
@@ -167,8 +178,9 @@ pub fn edited(seq: &[RegOp], e: &Edit) -> Vec<RegOp> {
 
 fn run_e2e(a: &[RegOp], b: &[RegOp], equal: bool, reconnect: bool) -> Option<Fail> {
     use crate::sim::apps::{DisconnectRequests, MismatchSeen};
-    let mut server = build(a, AuthMethod::ProtocolCheck);
-    let mut client = build(b, AuthMethod::ProtocolCheck);
+    let noisy = a.len() % 2 == 0;
+    let mut server = build_with(a, AuthMethod::ProtocolCheck, true);
+    let mut client = build_with(b, AuthMethod::ProtocolCheck, true);
     server.init_resource::<DisconnectRequests>();
     server.add_systems(PreUpdate, (|mut r: EventReader<DisconnectRequest>, mut log: ResMut<DisconnectRequests>| {
         for e in r.read() {
@@ -182,6 +194,15 @@ fn run_e2e(a: &[RegOp], b: &[RegOp], equal: bool, reconnect: bool) -> Option<Fai
     server.world_mut().resource_mut::<RepliconServer>().set_running(true);
     let id = server.world_mut().spawn(ConnectedClient { max_size: 1200 }).id();
     client.world_mut().resource_mut::<RepliconClient>().set_status(RepliconClientStatus::Connected);
+    if noisy {
+        // game logic that writes a mapped event with an entity the server has never heard of, in the connection frame
+        client.add_systems(Update, |mut w: EventWriter<MapEv>, mut done: Local<bool>| {
+            if !*done {
+                w.write(MapEv(Entity::from_raw(9_999)));
+                *done = true;
+            }
+        });
+    }
     let exchange = |server: &mut App, client: &mut App, id: Entity| {
         for _ in 0..4 {
             client.update();
